@@ -193,12 +193,9 @@ namespace sim
 
    // ------------------------------------------------------------ parse tree selector (used by the tree set)
    // by rule: node<I>: I%5 -> 0 store_content, 1 unselected, 2 remove_content, 3 fold_one, 4 discard_empty
-   template< typename Rule >
-   struct sim_selector : std::false_type
-   {};
    // clang-format off
    template< int I > struct sel_kind { using type = std::false_type; };
-   template< typename Rule, int K > struct sel_pick : std::false_type {};
+   template< typename Rule, int K > struct sel_pick : std::false_type {};  // K = 1: unselected
    template< typename Rule > struct sel_pick< Rule, 0 > : pegtl::parse_tree::store_content::on< Rule >::type {};
    template< typename Rule > struct sel_pick< Rule, 2 > : pegtl::parse_tree::remove_content::on< Rule >::type {};
    template< typename Rule > struct sel_pick< Rule, 3 > : pegtl::parse_tree::fold_one::on< Rule >::type {};
@@ -344,7 +341,7 @@ namespace sim
       using rule_t = mini;
       using MK0 = mkid< J, 0 >;
       using MK1 = mkid< J, 1 >;
-      using subs_t = pegtl::type_list< matoms, pegtl::seq< MK0, MK1 >, pegtl::sor< MK0, MK1 >, pegtl::star< MK0 >, pegtl::opt< MK0 >, pegtl::at< MK0 >, pegtl::not_at< MK0 >, pegtl::must< MK0 >, pegtl::try_catch_any_return_false< MK0 >, mw_ca< J >, mw_cc< J >, pegtl::action< act2, MK0 >, pegtl::control< ctl2, MK0 >, mw_cas< J >, mw_cass< J >, pegtl::disable< MK0 >, pegtl::enable< MK0 >, pegtl::state< sim_state, MK0 > >;
+      using subs_t = pegtl::type_list< matoms, MK0, pegtl::seq< MK0, MK1 >, pegtl::sor< MK0, MK1 >, pegtl::star< MK0 >, pegtl::opt< MK0 >, pegtl::at< MK0 >, pegtl::not_at< MK0 >, pegtl::must< MK0 >, pegtl::try_catch_any_return_false< MK0 >, mw_ca< J >, mw_cc< J >, pegtl::action< act2, MK0 >, pegtl::control< ctl2, MK0 >, mw_cas< J >, mw_cass< J >, pegtl::disable< MK0 >, pegtl::enable< MK0 >, pegtl::state< sim_state, MK0 > >;
 
       template< pegtl::apply_mode A, pegtl::rewind_mode M, template< typename... > class Action, template< typename... > class Control, typename In, typename... St >
       [[nodiscard]] static bool match( In& in, St&&... st );
